@@ -16,6 +16,38 @@ CHECKS = {
             'that arrived by add/|=.', 'DESIGN.md 3 C17'),
 }
 
+CHECKS.update({
+    'C02': ('exhaustive short histories + Hypothesis histories vs relational shadow model (state compared after every call)',
+            'Every history up to the stated length over a fixed alphabet of concrete relate/unrelate/delete/new calls on six '
+            'fixed schemas is executed and the complete observable state compared with a plain relational model after each '
+            'call (complete inside that bound); Hypothesis adds long histories over generated schemas. Bounded exploration.',
+            'Trusted: harness shadow model (pbt/shadow.py) and its self-test. relate/unrelate are only given live instances.',
+            'DESIGN.md 3 C02'),
+    'C09': ('Hypothesis model states (API histories and dirty loads) x generated queries vs shadow evaluation',
+            'Generated query and navigation forms are evaluated on generated model states and compared with an independent '
+            'evaluation over the relational shadow (filters, stable sort, duplicate-free union in encounter order). Bounded exploration.',
+            'Trusted: shadow evaluation; ordering only on plain attributes.', 'DESIGN.md 3 C09'),
+    'C10': ('exhaustive call sequences over all case patterns of short names + Hypothesis long sequences vs dict model',
+            'All sequences up to the stated length over writes/deletes/referential writes/relate/new under every case pattern '
+            'of 2-letter names are executed and every spelling is read back, serialized and queried (complete in that bound); '
+            'Hypothesis adds sequences up to 30 over longer names.',
+            'Trusted: dict model keyed by declared name; see ASSUMPTIONS in the evidence.', 'DESIGN.md 3 C10'),
+    'C11': ('Hypothesis models (dirty loads, API histories) vs violation counts computed on the shadow; CLI in-process and sub-process',
+            'Reported counts of every check function, every restriction and both command-line tools are compared with counts '
+            'computed independently on the relational shadow for generated models. Bounded exploration.',
+            'Trusted: shadow counting (self-tested on a hand-counted population); harness regex reader of bridgepoint/schema.py.',
+            'DESIGN.md 3 C11'),
+    'C16': ('exhaustive enumeration of chain arrangements x member orders + Hypothesis, constructive oracle',
+            'Every arrangement of up to 5 (quick) / 6 (thorough) instances into ordered chains, every member order, both '
+            'phrases, plus rings and a termination-only domain; expected order is constructed by the harness.',
+            'Trusted: constructive oracle; 10 s alarm decides termination.', 'DESIGN.md 3 C16'),
+    'C19': ('Hypothesis creation sequences and generator call sequences vs default/argument model',
+            'Generated schemas (all core types in any letter case, unknown types, a referential attribute) and creation '
+            'sequences with positional/keyword/omitted arguments under three id generators are compared with a model of '
+            'defaults-then-positional-then-keyword; stand-alone generators exhaustively for call sequences up to length 5.',
+            'Trusted: the argument model; uniqueness demanded among defaulted ids only.', 'DESIGN.md 3 C19'),
+})
+
 NOT_APPLICABLE = {
 }
 
